@@ -144,6 +144,11 @@ func H_C14_FrostDerive() {
 	for d := 0; d < depth; d++ {
 		idx := vsym.Uint32([]string{"index0", "index1", "index2", "index3"}[d])
 		vsym.Assume(idx < 1<<31)
+		if vsym.Choose("fixed-index", 2) == 1 {
+			// a concrete index whose four bytes all differ: a byte-order or truncation slip in ser32(i) shows as a
+			// counterexample without symbolic index, which the native replay reproduces
+			idx = 0x01020304
+		}
 		parent := cur[ids[0]]
 		// BIP-32 CKDpub written out: I = HMAC-SHA512(key = chain code, data = serP(K) || ser32(i))
 		mac := hmac.New(sha512.New, parent.ChainKey)
